@@ -473,3 +473,106 @@ func TestQueueIteratorBesideBlockedProducers(t *testing.T) {
 		vkit.CaseN(tBlockedProducers, vkit.Hash(*c), reps, blocking > 0 && len(c.Script) > c.Capacity, []string{fmt.Sprintf("capacity:%d", c.Capacity)}, func() any { return *c })
 	})
 }
+
+// ---------------------------------------------------------------------
+// a blocking deque producer and pushes at the end it is not heading for
+
+// A blocking producer that has caught up waits for items at the end it is
+// heading for.  Items pushed at the *other* end lie behind it: they are not
+// for it, and they are no reason to report the end either - the deque is
+// open.  The parked call returns with the next item pushed at its own end.
+
+const tFarEnd = "TestBlockingProducerAndFarEndPushes"
+
+type farEndCase struct {
+	Reverse bool     `json:"reverse"`
+	Items   int      `json:"items"`
+	Far     []string `json:"far_end_pushes"` // push | force | wait
+	Wrapped bool     `json:"through_iterator"`
+	Procs   int      `json:"gomaxprocs"`
+}
+
+func runFarEnd(c *farEndCase) (string, string) {
+	if c.Procs > 0 {
+		old := runtime.GOMAXPROCS(c.Procs)
+		defer runtime.GOMAXPROCS(old)
+	}
+	limit := vkit.Limit()
+	dq := pubsub.NewUnlimitedDeque[int]()
+	defer dq.Close()
+	ctx, cancel := context.WithCancel(context.Background())
+	defer cancel()
+	near, far := dq.PushBack, map[string]func(int) error{"push": dq.PushFront, "force": dq.ForcePushFront, "wait": func(v int) error { return dq.WaitPushFront(ctx, v) }}
+	read := dq.ProducerBlocking()
+	if c.Reverse {
+		near, far = dq.PushFront, map[string]func(int) error{"push": dq.PushBack, "force": dq.ForcePushBack, "wait": func(v int) error { return dq.WaitPushBack(ctx, v) }}
+		read = dq.ProducerReverseBlocking()
+	}
+	if c.Wrapped {
+		read = read.Iterator().ReadOne
+	}
+	for i := 0; i < c.Items; i++ {
+		_ = near(i + 1)
+	}
+	for i := 0; i < c.Items; i++ {
+		v, err := read(ctx)
+		if err != nil || v != i+1 {
+			return "content", fmt.Sprintf("read %d of the initial items: (%d, %v)", i, v, err)
+		}
+	}
+	type res struct {
+		v   int
+		err error
+	}
+	out := make(chan res, 1)
+	base := vkit.CountWhere("[sync.Cond.Wait", "sync.(*Cond).Wait", "github.com/tychoish/fun/pubsub.")
+	go func() { v, err := read(ctx); out <- res{v, err} }()
+	vkit.Eventually(limit, func() bool {
+		return vkit.CountWhere("[sync.Cond.Wait", "sync.(*Cond).Wait", "github.com/tychoish/fun/pubsub.") > base
+	})
+	for i, how := range c.Far {
+		if err := far[how](-(i + 1)); err != nil {
+			return "harness", fmt.Sprintf("far-end push %d (%s): %v", i, how, err)
+		}
+	}
+	_ = near(4242)
+	select {
+	case r := <-out:
+		if r.err != nil || r.v != 4242 {
+			return "spurious-end", fmt.Sprintf("a blocking producer that had caught up (%d items, reverse=%v) and was parked returned (%d, %v) after %v were pushed at the other end and 4242 at its own: the deque is open, the call is due (4242, nil)", c.Items, c.Reverse, r.v, r.err, c.Far)
+		}
+	case <-time.After(limit):
+		return "blocked", fmt.Sprintf("a blocking producer parked at its end has not returned %v after an item was pushed there", limit)
+	}
+	return "", ""
+}
+
+func TestBlockingProducerAndFarEndPushes(t *testing.T) {
+	var rc farEndCase
+	if ok, err := vkit.ReplayCase(tFarEnd, &rc); err != nil {
+		t.Fatal(err)
+	} else if ok {
+		for i := 0; i < 20; i++ {
+			if k, why := runFarEnd(&rc); why != "" {
+				vkit.Fail(t, tFarEnd, "C20:deque-far-end/"+k, rc, "%s (repetition %d)", why, i)
+			}
+		}
+		return
+	}
+	rapid.Check(t, func(t *rapid.T) {
+		if vkit.AlreadyFailed(tFarEnd) {
+			return
+		}
+		c := &farEndCase{
+			Reverse: rapid.Bool().Draw(t, "reverse"),
+			Items:   rapid.IntRange(1, 4).Draw(t, "items"), // on an empty deque both ends are ahead of the producer
+			Far:     rapid.SliceOfN(rapid.SampledFrom([]string{"push", "force", "wait"}), 0, 3).Draw(t, "far"),
+			Wrapped: rapid.Bool().Draw(t, "wrapped"),
+			Procs:   rapid.SampledFrom([]int{1, 4, 16}).Draw(t, "gomaxprocs"),
+		}
+		if k, why := runFarEnd(c); why != "" {
+			vkit.Fail(t, tFarEnd, "C20:deque-far-end/"+k, *c, "%s", why)
+		}
+		vkit.Case(tFarEnd, vkit.Hash(*c), len(c.Far) > 0, []string{fmt.Sprintf("reverse:%v", c.Reverse)}, func() any { return *c })
+	})
+}
